@@ -94,15 +94,36 @@ var properties = []Property{
 		Explanation: "Immutability argument: if no code reachable from the interpreter mutates a value object other than a private copy (receiver-mutating methods are only invoked on results of a copier covering every library type that has them; nothing else stores into object fields), then sharing pointers between variables, the constant pool and the field cache is unobservable — which is the property inside the library.",
 		NotDecided:  "objects of host-defined types implementing the increment/iteration interfaces.",
 		Assumptions: commonAssumptions},
+	{ID: "C10", Title: "confinement", Level: "proof",
+		Rules:       []string{"R-EFFECTS", "R-IMPORTS", "R-DYNCALLS"},
+		Tech:        "closed-world reference and call enumeration against an allow-list (types.Info uses/selections, import scan of every file regardless of build constraints, resolution of every dynamic call site)",
+		Explanation: "Closed-world argument: every object from outside the module that library code references is on an allow-list of I/O-free packages plus exactly the effects the property grants (stdout through fmt.Print*, os.Getenv, the clock, the time-zone database); every file of the library — whatever its build constraints — imports only allow-listed packages and uses no cgo/linkname/assembly; every call through a function value resolves to module functions or to functions the host registered. One obligation per external object, per file, per dynamic call site and per function-table writer; all must be discharged.",
+		NotDecided:  "nothing inside the stated trusted base; what host-registered functions do is the host's business, as the property says.",
+		Assumptions: commonAssumptions,
+		TrustedBase: []string{
+			"the allow-listed standard-library functions do what their documentation says (regexp, fmt.Sprintf, strconv, sort … perform no I/O; fmt.Print* writes only to standard output)",
+			"go/types name resolution (x/tools v0.29.0, go1.23.5) and the Go toolchain's treatment of cgo/asm/linkname, whose absence is checked",
+			"reflection is used to read host values only: reflect.Value.Call/Method/MethodByName/NewAt/MakeFunc are not referenced (checked)",
+		}},
+	{ID: "C11", Title: "concurrency", Level: "other",
+		Rules:       []string{"R-GLOBALS", "R-LOCK", "R-NOMUT", "R-NONDETSRC"},
+		Explanation: "Race-freedom argument for the API the property names: Run holds the evaluator's mutex around Execute on every path and Prepare holds it by defer (serialisation gives the one-at-a-time order); every package-level variable is either never written after initialisation or only accessed under a package-level mutex (must-held dataflow); shared singletons and constants are immutable (R-NOMUT); the library starts no goroutines.",
+		NotDecided:  "Execute, SetVariable, GetVariable called concurrently (not promised by the property); host functions and host objects.",
+		Assumptions: commonAssumptions},
 	{ID: "C12", Title: "precedence and grouping", Level: "other",
 		Rules:       []string{"R-PRECTABLE", "R-PRATT", "R-INFIXSET", "R-TERNGUARD"},
 		Explanation: "The four facts that are the grouping semantics of a Pratt parser are read from the code: the order of the binding powers against the documented chain, strictness of the loop comparison, capture of the operator's binding power before the parser advances, agreement between the infix table and the precedence table; plus the nested-ternary guard.",
 		NotDecided:  "the '.' rewrite of field access, postfix ++/-- being separate statements, what the compiler does with the tree.",
 		Assumptions: commonAssumptions},
 	{ID: "C16", Title: "containers", Level: "other",
-		Rules:       []string{"R-SCRIPTINDEX"},
-		Explanation: "Every slice index computed from a script value is proven within bounds from the dominating comparisons (difference constraints over canonical len terms).",
-		NotDecided:  "element order from the stack, len, membership, hash-key distinctness and sorted iteration (rules R-HASHKEY/R-MAPORDER when built).",
+		Rules:       []string{"R-SCRIPTINDEX", "R-HASHKEY", "R-MAPORDER", "R-NOMUT"},
+		Explanation: "Every slice index computed from a script value is proven within bounds from the dominating comparisons (difference constraints over canonical len terms); every HashKey() keeps the type and the value of the key; hash entries are iterated in a total order (sorted with a comparator that identifies the entry); iteration works on a private cursor so every entry is visited exactly once even in nested loops.",
+		NotDecided:  "element order from the stack, len, membership: values.",
+		Assumptions: commonAssumptions},
+	{ID: "C19", Title: "determinism", Level: "other",
+		Rules:       []string{"R-MAPORDER", "R-NONDETSRC", "R-PREPAREFRESH"},
+		Explanation: "Every iteration over a Go map in the library is classified as order-insensitive, collected-then-totally-sorted, or listed with a reason; there is no goroutine, multi-way select, pointer printing or randomness in the library; Prepare starts from empty compile outputs.",
+		NotDecided:  "nothing structural remains; what remains is values (and now()/time()/getenv(), which the property excludes).",
 		Assumptions: commonAssumptions},
 	{ID: "C18", Title: "well-formed code", Level: "other",
 		Rules:       []string{"R-EMITLEN", "R-HANDLERS", "R-PATCHALL", "R-JOINPH", "R-JUMPSET", "R-OPBOUNDARY", "R-NARROW"},
